@@ -1,5 +1,6 @@
 import ChemProofs.Model.Comp
 import ChemProofs.Spec.SpecText
+import ChemProofs.Lemmas.Digits
 /-
 C16 — element-specification text and string-keyed access are total and consistent
 (parametric part; the instantiation at the regenerated table is `Inst/C16.lean`).
@@ -162,5 +163,66 @@ theorem getStr_agrees (T : Table) (c : Comp) (s : Sym) (k : Key)
   rcases spec_sound T s k hk with ⟨e, he, hke, _⟩ | ⟨e, sym, num, _, hs, _⟩
   · rw [hke, hown s e he]; rfl
   · exact absurd (by rw [hs]; simp) hnb
+
+/-! ### round trip `Display` → `parse_with` (TASK K, part 1) — parametric in the table.
+All of `spec_roundtrip`, `spec_accepts_only`, `displayKey_inj_on_valid` are fully proved (nothing missing). -/
+
+theorem splitFirst_append_of_not_mem (c : Nat) (a b : List Nat) (h : c ∉ a) :
+    splitFirst c (a ++ c :: b) = some (a, b) := by
+  induction a with
+  | nil => simp [splitFirst]
+  | cons x xs ih =>
+    simp only [List.mem_cons, not_or] at h
+    have hx : (x == c) = false := by simpa using fun e => h.1 e.symm
+    simp only [List.cons_append, splitFirst, hx, Bool.false_eq_true, if_false, ih h.2]
+
+theorem splitFirst_none_of_not_mem (c : Nat) (s : List Nat) (h : c ∉ s) : splitFirst c s = none := by
+  induction s with
+  | nil => rfl
+  | cons x xs ih =>
+    simp only [List.mem_cons, not_or] at h
+    have hx : (x == c) = false := by simpa using fun e => h.1 e.symm
+    simp only [splitFirst, hx, Bool.false_eq_true, if_false, ih h.2]
+
+theorem stripLast_concat (c : Nat) (t : List Nat) : stripLast c (t ++ [c]) = some t := by
+  simp [stripLast]
+
+theorem spec_roundtrip (T : Table) (e : Elem) (he : T.find? e.sym = some e) (hnb : 91 ∉ e.sym) (iso : Nat)
+    (hiso : iso = 0 ∨ (iso ≤ 65535 ∧ (e.iso? iso).isSome)) :
+    parseSpec T (displayKey (e.sym, iso)) = .ok (e.sym, iso) := by
+  by_cases h0 : iso = 0
+  · subst h0
+    simp only [displayKey, beq_self_eq_true, if_true, parseSpec, splitFirst_none_of_not_mem 91 _ hnb, he]
+  · rcases hiso with h | ⟨hle, hsome⟩
+    · exact absurd h h0
+    · have hb : (iso == 0) = false := by simpa using h0
+      have htxt : displayKey (e.sym, iso) = e.sym ++ 91 :: (natDigits iso ++ [93]) := by
+        simp [displayKey, hb]
+      rw [htxt]
+      simp only [parseSpec, splitFirst_append_of_not_mem 91 _ _ hnb, stripLast_concat, he,
+        parseU16_natDigits iso hle, hsome, if_true]
+
+theorem spec_accepts_only (T : Table) (s : List Nat) (k : Key) :
+    (parseSpec T s = .ok k ∧ 91 ∉ s) ↔ ∃ e, T.find? s = some e ∧ k = (e.sym, 0) ∧ 91 ∉ s := by
+  constructor
+  · rintro ⟨h, hnb⟩
+    rcases spec_sound T s k h with h1 | ⟨e, sym, num, _, hs, _⟩
+    · exact h1
+    · exact absurd (by rw [hs]; simp) hnb
+  · rintro ⟨e, he, hk, hnb⟩
+    refine ⟨?_, hnb⟩
+    simp only [parseSpec, splitFirst_none_of_not_mem 91 _ hnb, he, hk]
+
+/-- consequence: `Display` is injective on valid specifications (same text ⇒ same key) -/
+theorem displayKey_inj_on_valid (T : Table) (e e' : Elem) (he : T.find? e.sym = some e) (he' : T.find? e'.sym = some e')
+    (hnb : 91 ∉ e.sym) (hnb' : 91 ∉ e'.sym) (iso iso' : Nat)
+    (hiso : iso = 0 ∨ (iso ≤ 65535 ∧ (e.iso? iso).isSome))
+    (hiso' : iso' = 0 ∨ (iso' ≤ 65535 ∧ (e'.iso? iso').isSome))
+    (h : displayKey (e.sym, iso) = displayKey (e'.sym, iso')) : (e.sym, iso) = (e'.sym, iso') := by
+  have h1 := spec_roundtrip T e he hnb iso hiso
+  have h2 := spec_roundtrip T e' he' hnb' iso' hiso'
+  rw [h, h2] at h1
+  injection h1 with h1
+  exact h1.symm
 
 end Chem
